@@ -1,5 +1,172 @@
-(* C04 — placeholder while the proofs are being written *)
-From DS Require Import Base.Prelude Base.ThetaLib Model.Theta Proofs.ThetaProofs.
+(* C04 -- Theta sketch retains exactly the distinct hashes below theta (KMV invariant).
+   Statements only; proofs are in Proofs/ThetaKmv.v (from the invariant of Proofs/ThetaProofs.v and
+   the open-addressing lemmas of Proofs/ThetaOpenAddr.v).
+
+   Reading guide.
+   [tcfg] = (lg_k, resize factor lg 0..3, sampling probability as f64 bits, seed hash);
+   [cfg_ok c]: 5 <= lg_k <= 26 (MIN_LG_K/MAX_LG_K re-read from the source) and a resize factor of
+   the enum; NO condition on the sampling probability: [theta0 c] is whatever the crate's float
+   expression gives for it.
+   An operation history is a list of  OUpdate h | OTrim | OReset | OCompact ordered  where h is
+   ANY value offered as the 63-bit hash (the model takes hashes as input; the hashers are C16).
+   [reach reorder c ops s]: running [ops] on a fresh sketch of configuration c in the model of
+   theta/{hash_table,sketch}.rs (Model/Theta.v: slot array, odd-stride probing, resize, rebuild)
+   ends in state s without reaching any panic site.
+   [offered ops]: the hashes offered since the last reset.  [sk_entries s]: the non-zero slots in
+   slot order (what iter() yields).  [kept th l]: the distinct elements of l in (0, th).
+   [reorder] is the order in which rebuild() re-inserts the k smallest entries, which
+   `select_nth_unstable` leaves unspecified: every theorem holds for EVERY [reorder] returning a
+   permutation ([reorder_ok]), hence for the crate's whatever std does.
+
+   The model is the REPAIRED code: is_empty() is a flag cleared by the first offered value
+   (/repo "fix: theta sketch whose updates were all screened out by theta reported itself empty",
+   known_findings.d/theta-D5-screened-empty.json). *)
+From DS Require Import Base.Prelude Base.FloatBits Base.ThetaLib Model.Theta.
+From DS Require Import Proofs.ThetaOpenAddr Proofs.ThetaProofs Proofs.ThetaKmv.
+From Coq Require Import Permutation Sorted Floats.
 Open Scope N_scope.
-Theorem c04_placeholder : forall a b, starting_sub_multiple a b 0 = if a <=? b then b else a.
-Proof. intros. unfold starting_sub_multiple. destruct (a <=? b); reflexivity. Qed.
+
+(* theta_inv: at every point the retained entries are exactly the distinct offered hashes h with
+   0 < h < theta (no duplicates, nothing missing, nothing else), and num_entries is their number *)
+Theorem c04_theta_inv :
+  forall reorder, reorder_ok reorder -> forall c ops s, cfg_ok c -> reach reorder c ops s ->
+  NoDup (sk_entries s) /\
+  (forall x, In x (sk_entries s) <-> In x (offered ops) /\ 0 < x /\ x < t_theta s) /\
+  Permutation (sk_entries s) (kept (t_theta s) (offered ops)) /\
+  t_n s = N.of_nat (length (sk_entries s)).
+Proof. exact kmv. Qed.
+
+(* theta_monotone: theta never increases (between resets), and never exceeds its initial value *)
+Theorem c04_theta_monotone :
+  forall reorder, reorder_ok reorder -> forall c ops1 ops2 s1 s2, cfg_ok c ->
+  reach reorder c ops1 s1 -> reach reorder c (ops1 ++ ops2) s2 ->
+  Forall (fun o => o <> OReset) ops2 -> t_theta s2 <= t_theta s1.
+Proof. exact monotone. Qed.
+
+Theorem c04_theta_le_initial :
+  forall reorder, reorder_ok reorder -> forall c ops s, cfg_ok c -> reach reorder c ops s -> t_theta s <= theta0 c.
+Proof. exact theta_le_initial. Qed.
+
+(* theta_initial_until_k: theta is below its initial value only after MORE than k = 2^lg_k
+   distinct hashes in (0, theta0) were offered *)
+Theorem c04_theta_initial_until_k :
+  forall reorder, reorder_ok reorder -> forall c ops s, cfg_ok c -> reach reorder c ops s ->
+  t_theta s < theta0 c -> 2 ^ c_lg_nom c < N.of_nat (length (qual c (offered ops))).
+Proof. exact initial_until_k. Qed.
+
+(* theta_estimate_exact: while theta is at its initial value the sketch retains every distinct
+   offered hash of (0, theta0) -- num_retained is exactly their number -- and theta stays there as
+   long as no more than k of them were offered *)
+Theorem c04_theta_exact_mode :
+  forall reorder, reorder_ok reorder -> forall c ops s, cfg_ok c -> reach reorder c ops s ->
+  (t_theta s = theta0 c ->
+     Permutation (sk_entries s) (qual c (offered ops)) /\ t_n s = N.of_nat (length (qual c (offered ops)))) /\
+  (N.of_nat (length (qual c (offered ops))) <= 2 ^ c_lg_nom c -> t_theta s = theta0 c).
+Proof. exact exact_mode. Qed.
+
+(* ... and the f64 estimate `num_retained as f64 / (theta as f64 / MAX_THETA as f64)` is then exactly
+   the count (p = 1.0: theta = MAX_THETA = 2^63 - 1), in IEEE-754 binary64 arithmetic *)
+Theorem c04_theta_estimate_exact :
+  forall s, t_theta s = MAX_THETA -> sk_is_empty s = false -> sk_estimate s = float_of_Z63 (Nz (t_n s)).
+Proof. exact estimate_exact. Qed.
+
+(* trim_k_smallest: trim() leaves min(n, k) entries: nothing changes when n <= k, otherwise exactly
+   the k smallest stay and theta becomes the (k+1)-th smallest *)
+Theorem c04_trim_k_smallest :
+  forall reorder, reorder_ok reorder -> forall c ops s, cfg_ok c -> reach reorder c ops s ->
+  exists s', sk_trim reorder s = Ok s' /\ reach reorder c (ops ++ [OTrim]) s' /\
+    t_n s' = N.min (t_n s) (2 ^ c_lg_nom c) /\
+    (t_n s <= 2 ^ c_lg_nom c -> s' = s) /\
+    (2 ^ c_lg_nom c < t_n s ->
+       Permutation (firstn (N.to_nat (2 ^ c_lg_nom c)) (sortN (sk_entries s))) (sk_entries s') /\
+       t_theta s' = nth (N.to_nat (2 ^ c_lg_nom c)) (sortN (sk_entries s)) 0).
+Proof. exact trim_spec. Qed.
+
+(* reset_init: reset() restores the initial state (table size, theta, emptiness) *)
+Theorem c04_reset_init :
+  forall reorder, reorder_ok reorder -> forall c ops s, cfg_ok c -> reach reorder c ops s ->
+  sk_reset s = sk_new c /\ reach reorder c (ops ++ [OReset]) (sk_new c).
+Proof. exact reset_spec. Qed.
+
+(* emptiness: is_empty() <-> nothing was offered since the last reset; an empty sketch retains nothing *)
+Theorem c04_empty_iff :
+  forall reorder, reorder_ok reorder -> forall c ops s, cfg_ok c -> reach reorder c ops s ->
+  (sk_is_empty s = true <-> offered ops = []) /\ (sk_is_empty s = true -> sk_entries s = [] /\ t_n s = 0).
+Proof. exact empty_iff. Qed.
+
+(* compact_same_set: compact(ordered) describes the same set: same entries, count, emptiness and
+   estimate (bit-identical f64); the same theta when non-empty (MAX_THETA when empty); ordered is
+   honoured, and whenever the result says it is ordered its entries are strictly increasing *)
+Theorem c04_compact_same_set :
+  forall reorder, reorder_ok reorder -> forall c ops s ordered, cfg_ok c -> reach reorder c ops s ->
+  let k := sk_compact s ordered in
+  Permutation (ce_entries k) (sk_entries s) /\
+  c_num_retained k = sk_num_retained s /\
+  ce_empty k = sk_is_empty s /\
+  c_estimate k = sk_estimate s /\
+  (sk_is_empty s = false -> ce_theta k = t_theta s) /\
+  (sk_is_empty s = true -> ce_theta k = MAX_THETA /\ ce_entries k = []) /\
+  (ordered = true -> ce_ordered k = true) /\
+  (ce_ordered k = true -> StronglySorted N.lt (ce_entries k)) /\
+  ce_seed_hash k = c_seed_hash c.
+Proof. exact compact_spec. Qed.
+
+(* theta_no_stuck: no operation history reaches a panic site of the model (the unreachable!() after
+   find_in_entries in try_insert/resize/rebuild, the assert_eq!s, select_nth_unstable's bound) ... *)
+Theorem c04_theta_no_stuck :
+  forall reorder, reorder_ok reorder -> forall c ops, cfg_ok c -> exists s, reach reorder c ops s.
+Proof. exact no_stuck. Qed.
+
+(* ... because the probe loop always finds the key or an empty slot: the table is a valid
+   open-addressing layout with num_entries <= capacity < size *)
+Theorem c04_find_always_succeeds :
+  forall reorder, reorder_ok reorder -> forall c ops s h, cfg_ok c -> reach reorder c ops s -> h <> 0 ->
+  exists idx, find_in_entries (t_slots s) h (t_lg_cur s) = Some idx /\ idx < 2 ^ t_lg_cur s /\
+              (sl_get (t_slots s) idx = h \/ sl_get (t_slots s) idx = 0).
+Proof. exact find_succeeds. Qed.
+
+Theorem c04_layout :
+  forall reorder, reorder_ok reorder -> forall c ops s, cfg_ok c -> reach reorder c ops s -> OA (t_lg_cur s) (t_slots s).
+Proof. exact layout_inv. Qed.
+
+(* theta_capacity: n <= 15/16 * 2^(lg_k+1), n < table size, table size between 32 and 2k *)
+Theorem c04_theta_capacity :
+  forall reorder, reorder_ok reorder -> forall c ops s, cfg_ok c -> reach reorder c ops s ->
+  16 * t_n s <= 15 * 2 ^ (c_lg_nom c + 1) /\ t_n s < 2 ^ t_lg_cur s /\
+  5 <= t_lg_cur s /\ t_lg_cur s <= c_lg_nom c + 1.
+Proof. exact capacity. Qed.
+
+(* the capacity expression `(fraction * entries.len() as f64) as usize` of the crate is exactly
+   size/2 resp. 15*size/16 for every table size a valid configuration can have (binary64 sweep) *)
+Theorem c04_capacity_float_exact :
+  forall c lg, cfg_ok c -> lg_wf c lg ->
+  get_capacity lg (c_lg_nom c) = if lg <=? c_lg_nom c then 2 ^ lg / 2 else 15 * 2 ^ lg / 16.
+Proof. exact get_capacity_exact. Qed.
+
+(* the builder accepts every documented configuration *)
+Theorem c04_build_ok :
+  forall c, cfg_ok c ->
+  PrimFloat.ltb 0%float (float_of_bits (c_pbits c)) = true ->
+  PrimFloat.leb (float_of_bits (c_pbits c)) 1%float = true ->
+  PrimFloat.leb 0%float (float_of_bits (c_pbits c)) = true ->
+  sk_build c = Ok (sk_new c).
+Proof. exact build_ok. Qed.
+
+(* the executable instance used by the correspondence check is one of the admitted orders *)
+Theorem c04_ascending_ok : reorder_ok ascending.
+Proof. exact ascending_ok. Qed.
+
+(* non-vacuity: lg_k = 5, resize factor X2, p = 1.0; the hashes 1..61 are offered: the table grows
+   32 -> 64 slots, the 61st insert exceeds 15/16 * 64 = 60 and rebuilds: theta = 33 (the 33rd
+   smallest), the 32 smallest stay; one further hash above theta is screened out *)
+Example c04_example :
+  let c := mkCfg 5 1 0x3ff0000000000000 37836 in
+  let ops := map OUpdate (rangeN 61 1) ++ [OCompact true; OUpdate 40] in
+  cfg_ok c /\ theta0 c = MAX_THETA /\
+  exists s, reach ascending c ops s /\ t_theta s = 33 /\ t_n s = 32 /\ t_lg_cur s = 6 /\
+            sortN (sk_entries s) = rangeN 32 1 /\ sk_is_empty s = false /\
+            ce_entries (sk_compact s true) = rangeN 32 1.
+Proof.
+  cbv zeta. split; [unfold cfg_ok; cbn; lia|]. split; [vm_compute; reflexivity|].
+  eexists. split; [vm_compute; reflexivity|]. vm_compute. repeat split; reflexivity.
+Qed.
